@@ -64,9 +64,6 @@ class ApplyContract(Contract):
         p = O.observe(v)
         n = len(o.text)
         a, b = norm_range(start, end, n)
-        if isinstance(settings, int) and not isinstance(settings, bool) and settings == 0:
-            ctx.grey('bare-int-0-as-settings')
-            return
         G = settings_texts(L, mon, settings)
         if G is None:
             return
